@@ -110,6 +110,11 @@ def symbols():
         fs.mask[0] = True
         return fs
     add('S_pi_one_corner_masked', lambda: {'fs': _one_corner()}, lambda a: np.array([a['fs'].S(), a['fs'].Watterson_theta(), a['fs'].Tajima_D(), a['fs'].pi()]))
+    # corners left unmasked (monomorphic classes kept): S() masks them for the count whatever the memory layout of the spectrum
+    def _unmasked(shape):
+        return dadi.Spectrum(np.asarray(_fs(shape).data).copy() + 1.0, mask_corners=False)
+    add('S_unmasked_corners_2d', lambda: {'fs': _unmasked((4, 5))}, lambda a: np.array([a['fs'].S()]))
+    add('mask_corners_2d', lambda: {'fs': _unmasked((3, 4))}, lambda a: (a['fs'].mask_corners(), np.ma.getmaskarray(a['fs']).astype(float))[1], inplace=('fs',))
     add('Fst', lambda: {'fs': _fs((4, 6))}, lambda a: np.array([a['fs'].Fst()]))
     add('marginalize', lambda: {'fs': _fs((4, 3, 5))}, lambda a: a['fs'].marginalize([1]))
     add('from_phi_1d', lambda: {'phi': _phi(1), 'xx': _grid()}, lambda a: dadi.Spectrum.from_phi(a['phi'], [5], [a['xx']]))
@@ -193,6 +198,30 @@ def symbols():
     add('remove_pop', lambda: {'phi': _phi(3), 'xx': _grid()}, lambda a: PM.remove_pop(a['phi'], a['xx'], 2))
     add('reorder_then_sample', lambda: {'phi': _phi(3), 'xx': _grid()},
         lambda a: dadi.Spectrum.from_phi(PM.reorder_pops(a['phi'], [3, 1, 2]), [2, 3, 2], [a['xx']] * 3))
+    # the event record behind dadi.Demes.output(): a model starts a new record, whatever ran before it and whatever its dominance coefficient
+    def _export(h):
+        def call(a):
+            phi = PM.phi_1D(a['xx'], nu=2.0, gamma=-1.0, h=h)
+            phi = I.one_pop(phi, a['xx'], 0.05, nu=0.5, gamma=-1.0, h=h)
+            g = dadi.Demes.output(Nref=100.0)
+            return np.frombuffer(json.dumps(g.asdict(), sort_keys=True, default=str).encode(), dtype=np.uint8).astype(float)
+        return call
+    add('demes_output_h0.3', lambda: {'xx': _grid()}, _export(0.3))
+    add('demes_output_h0.5', lambda: {'xx': _grid()}, _export(0.5))
+
+    # depth-of-coverage distributions come back in the order the populations were asked for (they are consumed by position)
+    def _cov_dd():
+        d = {}
+        for i in range(12):
+            d['c_%d' % i] = {'coverage': {'YRI': np.array([3 + i % 3, 5, 4 + i % 2]), 'CEU': np.array([10 + i % 4, 12]), 'CHB': np.array([1 + i % 2, 2, 2])}}
+        return d
+
+    def _cov(a):
+        cd = LP.compute_cov_dist(a['dd'], a['pops'])
+        order = [float(a['pops'].index(k)) for k in cd]
+        return np.concatenate([np.array(order)] + [np.asarray(v, dtype=float).ravel() for v in cd.values()])
+    add('lowpass_cov_dist', lambda: {'dd': _cov_dd(), 'pops': ['YRI', 'CEU', 'CHB']}, _cov)
+    add('lowpass_cov_dist_2', lambda: {'dd': _cov_dd(), 'pops': ['CHB', 'YRI']}, _cov)
     try:
         g = _demes_graph()
         add('demes_sfs', lambda: {'g': g}, lambda a: dadi.Spectrum.from_demes(a['g'], sampled_demes=['A', 'B'], sample_sizes=[4, 3], pts=[8]))
@@ -204,7 +233,7 @@ def symbols():
     return S
 
 
-QUICK_SYMS = ['from_phi_inbreeding_ploidy4', 'from_phi_inbreeding_ploidy4_2ind', 'from_phi_inbreeding_3ind', 'lowpass_nocall', 'fragment_bootstrap', 'FIM_A_pts40', 'project_1d', 'project_2d', 'from_phi_1d', 'from_phi_2d', 'from_phi_2d_gridB', 'from_phi_inbreeding', 'from_data_dict_1', 'lowpass_projmat_F0',
+QUICK_SYMS = ['lowpass_cov_dist', 'lowpass_cov_dist_2', 'demes_output_h0.3', 'from_phi_inbreeding_ploidy4', 'from_phi_inbreeding_ploidy4_2ind', 'from_phi_inbreeding_3ind', 'lowpass_nocall', 'fragment_bootstrap', 'FIM_A_pts40', 'project_1d', 'project_2d', 'from_phi_1d', 'from_phi_2d', 'from_phi_2d_gridB', 'from_phi_inbreeding', 'from_data_dict_1', 'lowpass_projmat_F0',
               'lowpass_projmat_F', 'LRT_A1', 'LRT_A2', 'FIM_A', 'object_func', 'optimize_grid', 'two_pops']
 BLAS = {'demes_sfs_ancient', 'from_phi_2d', 'from_phi_2d_gridB', 'from_phi_2d_gridC', 'from_phi_3d', 'from_phi_4d', 'reorder_then_sample', 'demes_sfs', 'demes_sfs_BA'}
 
